@@ -90,7 +90,8 @@ def edge_floors(k):
               "edge_zero_operator_checked": 18 * k, "edge_identity_checked": 24 * k, "edge_f_forms_compared": 12 * k,
               "edge_vector_forms": 8 * k, "edge_expmv_judged": 8 * k, "edge_eigs_judged": 8 * k, "edge_lin_solver_judged": 8 * k,
               "sector_dim_1:expmv": 3 * k, "sector_dim_1:eigs": 3 * k, "sector_dim_1:lin": 3 * k, "sector_dim_1:edge": 1 * k,
-              "eigs_degenerate_extremal": 8 * k, "edge_lin_solver_nearly_singular": 2 * k})
+              "eigs_degenerate_extremal": 8 * k, "edge_lin_solver_nearly_singular": 2 * k,
+              "start_vector_poorer_fusion_history": 3 * k, "start_vector_richer_fusion_history": 2 * k})
     for w in ("SR", "LR", "LM", "SM"):
         for h in ("hermitian-map", "non-hermitian-map"):
             f[f"eigs:which:{w}:{h}"] = 4 * k
@@ -354,12 +355,14 @@ def draw_legs(rng, sym, rank, dlo, dhi, nmax_full):
     raise CaseSkip
 
 
-def gen_problem(rng, nprng, sym, tier, want_small=False, drange=None, dtype=None, rank=None):
+def gen_problem(rng, nprng, sym, tier, want_small=False, drange=None, dtype=None, rank=None, kind=None):
     import yastn
     P = Problem()
     P.sym = sym
     P.rank = rank = rng.choice((1, 2, 2, 3)) if rank is None else rank
     P.kind = rng.choice(("full", "full", "full", "spectator", "sum")) if rank >= 2 else "full"
+    if kind is not None:
+        P.kind = kind
     P.herm = rng.random() < 0.55
     P.dtype = rng.choice(("float64", "complex128"))
     if dtype is not None:
@@ -1185,7 +1188,7 @@ def judge_lin(ctx, P, xv, res, bvec, cond, premise, mech, wit):
 
 EDGE_SCENARIOS = ("defaults:expmv", "defaults:eigs", "defaults:lin_solver", "falsy-t", "small-args", "tol-zero", "zero-operator",
                   "identity-f", "f-forms", "lazy-vector", "fused-vector:hard", "fused-vector:meta", "zero-filled-blocks",
-                  "dtype-mismatch")
+                  "dtype-mismatch", "fused-history:poorer-start", "fused-history:richer-start")
 EXPMV_DEFAULTS = {"t": 1., "tol": 1e-12, "ncv": 10, "hermitian": False, "normalize": False, "return_info": False}
 EIGS_DEFAULTS = {"k": 1, "which": "SR", "ncv": 10, "hermitian": False}
 LIN_DEFAULTS = {"ncv": 10, "tol": 1e-13, "pinv_tol": 1e-13, "hermitian": False}
@@ -1564,6 +1567,61 @@ def case_edge(ctx, P, rng, nprng, scen):
         ctx.count("edge_vector_forms")
         mini_battery(ctx, P, rng, scen, fuse(yv), vec, f=ff,
                      dense=lambda y, what: observe_vector(ctx, what, unfuse(y), P, pdesc(P, scenario=scen, groups=groups)))
+    elif scen.startswith("fused-history"):
+        # Hard-fused vectors whose fusion history differs from that of f(v): the start vector is fused on its own from a tensor that
+        # holds only part of the constituent charge sectors (poorer than f(v)), or the operator lacks a constituent sector that the
+        # start vector has (v richer than the range of f).  yastn embeds mismatching histories in add / vdot / tensordot by itself.
+        if P.rank < 2 or P.kind != "full" or P.sym == "dense":
+            raise CaseSkip
+        k = P.rank
+        A = P.ops[0][0]
+        keys = sorted(hv.blocks)
+        cand = [(i, t_) for i in range(k) for t_ in {key[i] for key in keys} if len({key[i] for key in keys}) >= 2]
+        if not cand:
+            raise CaseSkip
+        i0, t0 = rng.choice(sorted(cand))
+        if scen.endswith("poorer-start"):
+            keep = {key for key in keys if key[i0] != t0}
+            hs = hv.with_present(keep)                      # blocks with charge t0 on leg i0 are absent: the leg loses that sector
+        else:
+            hs = hv
+            A2 = A.with_present({key for key in A.blocks if key[i0] != t0 and key[k + i0] != t0})
+            if not A2.blocks:
+                raise CaseSkip
+            P.ops = [(A2, P.ops[0][1])]
+            P.M = A2.dense().reshape(P.N, P.N)[np.ix_(P.idx, P.idx)]
+            P.nrm = float(np.linalg.norm(P.M, 2))
+            if not P.nrm > 1e-12:
+                raise CaseSkip
+            P.yops = [(A2.to_yastn(P.cfg), P.ops[0][1])]
+            A = A2
+        vs = hs.dense().reshape(-1)[P.idx]
+        if not np.linalg.norm(vs) > 0:
+            raise CaseSkip
+        groups = (tuple(range(k)),)
+        fuse = lambda x: x.fuse_legs(axes=groups, mode="hard")
+        unfuse = lambda x: x.unfuse_legs(axes=0)
+        vf = fuse(hs.to_yastn(P.cfg))                      # fused independently of the operator
+        if rng.random() < 0.5:
+            Mf = P.yops[0][0].fuse_legs(axes=(tuple(range(k)), tuple(range(k, 2 * k))), mode="hard")   # matrix on the fused space
+            ff, form = (lambda x: (P.__setattr__("calls", P.calls + 1), Mf @ x)[1]), "fused-matrix"
+        else:
+            ff, form = (lambda x: fuse(P.f(unfuse(x)))), "unfuse-apply-fuse"
+        lv, lw = unfuse(vf).get_legs(), unfuse(ff(vf)).get_legs()
+        sub = all(set(a.t) <= set(b.t) for a, b in zip(lv, lw))
+        sup = all(set(a.t) >= set(b.t) for a, b in zip(lv, lw))
+        differs = vf.get_legs(0).hf != ff(vf).get_legs(0).hf
+        if scen.endswith("poorer-start") and differs and sub and not sup:
+            ctx.count("start_vector_poorer_fusion_history"); ctx.count("start_vector_poorer_fusion_history:" + form)
+        elif scen.endswith("richer-start") and differs and sup and not sub:
+            ctx.count("start_vector_richer_fusion_history"); ctx.count("start_vector_richer_fusion_history:" + form)
+        elif differs:
+            ctx.count("start_vector_other_fusion_history_mismatch")
+        else:
+            ctx.count("fused_history_scenario_without_mismatch")
+        ctx.count("edge_vector_forms")
+        mini_battery(ctx, P, rng, scen, vf, vs, f=ff,
+                     dense=lambda y, what: observe_vector(ctx, what, unfuse(y), P, pdesc(P, scenario=scen, form=form, leg=i0, charge=list(t0))))
     elif scen == "zero-filled-blocks":
         keys = sorted(hv.blocks)
         if len(keys) < 2:
@@ -1597,11 +1655,27 @@ def run_case(ctx, idx):
         solver = ("expmv", "eigs", "edge", "expmv", "lin", "expmv", "eigs", "lin", "edge", "expmv", "eigs", "expmv")[slot]
         tiny = rng.random() < 0.07          # a one-dimensional sector (single block of dimension 1): exact in one Krylov step
         if solver == "edge":
-            scen = EDGE_SCENARIOS[(2 * (idx // 84) + (slot == 8)) % len(EDGE_SCENARIOS)]
-            needs_rank2 = scen in ("lazy-vector", "fused-vector:hard", "fused-vector:meta", "zero-filled-blocks")
-            P = gen_problem(rng, nprng, sym, ctx.tier, drange=(1, 1) if (tiny and not needs_rank2 and scen != "defaults:eigs") else (2, 40),
-                            dtype="complex128" if scen == "dtype-mismatch" else None,
-                            rank=rng.choice((2, 2, 3)) if needs_rank2 else None)
+            rotation = EDGE_SCENARIOS + EDGE_SCENARIOS[-2:]          # the fusion-history scenarios get a double share
+            scen = rotation[(2 * (idx // 84) + (slot == 8)) % len(rotation)]
+            fh = scen.startswith("fused-history")
+            if fh and sym == "dense":
+                sym = rng.choice([x for x in G.ALL_SYMS if x != "dense"])      # a single sector has no poorer history
+            needs_rank2 = fh or scen in ("lazy-vector", "fused-vector:hard", "fused-vector:meta", "zero-filled-blocks")
+            for _attempt in range(6 if fh else 1):
+                try:
+                    P = gen_problem(rng, nprng, sym, ctx.tier,
+                                    drange=(1, 1) if (tiny and not needs_rank2 and scen != "defaults:eigs") else ((4, 40) if fh else (2, 40)),
+                                    dtype="complex128" if scen == "dtype-mismatch" else None,
+                                    rank=rng.choice((2, 2, 3)) if needs_rank2 else None, kind="full" if fh else None)
+                except CaseSkip:
+                    if not fh or _attempt == 5:
+                        raise
+                    continue
+                if not fh:
+                    break
+                keys_ = D.allowed_keys(P.sym, P.legs, P.n)       # some constituent leg must carry >= 2 charges inside the sector
+                if any(len({key[i] for key in keys_}) >= 2 for i in range(P.rank)):
+                    break
             if P.d == 1:
                 ctx.count("sector_dim_1:edge")
             case_edge(ctx, P, rng, nprng, scen)
